@@ -81,7 +81,7 @@ COMMON = "with allowCollisions True, with requireVisible False"
 
 def plan(tier, seed):
     n = 16 if tier == "quick" else 64
-    progs = 40 if tier == "quick" else 160
+    progs = 40 if tier == "quick" else 100
     return [{"shard": i, "programs": progs, "timeout": 1500 if tier == "quick" else 3000} for i in range(n)]
 
 
@@ -155,6 +155,7 @@ class Ctx:
         self.entdefs = {}
         self.fields = {}
         self.three = mode == "3d"
+        self.randpos = False
 
     def uid(self):
         self.k += 1
@@ -209,14 +210,17 @@ def build_world(cx, tilt_small=False):
         p = cx.pos()
         d = cx.dims()
         tilt = 0.33 if (tilt_small and name in ("A", "B")) else 1.45
+        ptext = rangetext if cx.randpos else (lambda x, w: f4(x))
         if cx.three:
-            ptxt = "(" + ", ".join(rangetext(c, 3.0) for c in p) + ")"
+            ptxt = "(" + ", ".join(ptext(c, 3.0) for c in p) + ")"
         else:
-            ptxt = "(" + ", ".join(rangetext(c, 3.0) for c in p[:2]) + ")"
+            ptxt = "(" + ", ".join(ptext(c, 3.0) for c in p[:2]) + ")"
         spec = [f"at {ptxt}"]
         info = {"cls": cls, "style": style}
         if style == "facing":
             a = cx.angles(tilt)
+            if tilt_small and name in ("A", "B") and cx.three:
+                a = (a[0], rnd(r, -0.3, 0.3), rnd(r, -0.3, 0.3))
             spec.append(f"facing {cx.otext(a)}")
             info["facing"] = a
         elif style == "parent":
@@ -762,7 +766,7 @@ def gen_on(cx):
         bo = np.array([0.0, 0.0, rnd(r, -3, 1)])
         extra.append(f"with baseOffset {fv(bo)}")
     forms = ["vec", "rect", "poly", "polyfield"]
-    if cx.three:
+    if cx.three and cx.tilt_small:
         forms += ["obj", "obj", "mod_obj", "mod_obj"]
     form = r.choice(forms)
     specs = []
@@ -1176,17 +1180,21 @@ GENERATORS = [
 ]
 
 
-def make_program(seed, shard, index, tier, only_case=None):
-    from rt import su
-
-    rng = random.Random((seed * 1000003 + shard) * 7919 + index)
+def make_program(seed, shard, index, tier, variant="main"):
+    """variant 'main': ~28 cases, positions literal (angles/sizes/distances possibly drawn from Range);
+    variant 'randpos': one case in a world whose positions are vectors with random coordinates."""
+    rng = random.Random(((seed * 1000003 + shard) * 7919 + index) * 2 + (1 if variant == "randpos" else 0))
     mode = "2d" if rng.random() < 0.2 else "3d"
-    randomized = rng.random() < 0.25
+    randomized = rng.random() < 0.3 or variant == "randpos"
     cx = Ctx(rng, mode, randomized)
-    build_world(cx, tilt_small=True if rng.random() < 0.35 else False)
-    cx.tilt_small = None
-    ncases = 28
-    gens = [g for g, w in GENERATORS for _ in range(w)]
+    cx.randpos = variant == "randpos"
+    cx.tilt_small = rng.random() < 0.4
+    build_world(cx, tilt_small=cx.tilt_small)
+    ncases = 28 if variant == "main" else 1
+    if variant == "main":
+        gens = [g for g, w in GENERATORS for _ in range(w)]
+    else:
+        gens = [gen_scalarop] * 6 + [gen_facing] * 3 + [gen_beyond, gen_dir, gen_side, gen_offsetby, gen_relto, gen_following]
     for _ in range(ncases):
         g = rng.choice(gens)
         first = len(cx.lines)
@@ -1241,22 +1249,11 @@ def assemble(cx, active):
     lines = list(cx.lines)
     owner = {}
     for c in active:
+        lines.append(f'V.EXTRA["k"] = {c[4]}')
+        owner[c[4]] = c
         for ln in c[2]:
             lines.append(ln)
-            owner[len(lines)] = c  # 1-based line number
     return "\n".join(lines) + "\n", owner
-
-
-def failing_line(e):
-    tb = e.__traceback__
-    ln = None
-    while tb is not None:
-        if tb.tb_frame.f_code.co_filename == "<string>":
-            ln = tb.tb_lineno
-        tb = tb.tb_next
-    if ln is None and isinstance(e, SyntaxError) and e.filename == "<string>":
-        ln = e.lineno
-    return ln
 
 
 def run_program(cx, res, bump, wit, isolate=True):
@@ -1281,14 +1278,16 @@ def run_program(cx, res, bump, wit, isolate=True):
 
     for attempt in range(12):
         src, owner = assemble(cx, active)
+        su.script.EXTRA["k"] = None
+        compiled = False
         try:
             scenario = su.compile_scenic(src, mode2D=mode2D)
+            compiled = True
             scene, _ = scenario.generate(maxIterations=200, verbosity=0)
             break
         except Exception as e:
             bump("program_errors")
-            ln = failing_line(e)
-            c = owner.get(ln)
+            c = None if compiled else owner.get(su.script.EXTRA.get("k"))
             if c is not None:
                 viols.append(err_violation(c, e, src))
                 active = [x for x in active if x is not c]
@@ -1476,6 +1475,16 @@ def run_shard(spec):
             bump("discrepancies")
         if index == 0 and spec["shard"] < 3:
             res["samples"].append({"mode": cx.mode, "randomized_world": cx.randomized, "program": assemble(cx, cx.cases[:6])[0] + "..."})
+    for index in range(spec["programs"] // 2):
+        cx = make_program(spec["seed"], spec["shard"], index, tier, variant="randpos")
+        wit = {"seed": spec["seed"], "shard": spec["shard"], "index": index, "tier": tier, "kind": "program", "variant": "randpos"}
+        bump("randpos_programs")
+        for v in run_program(cx, res, bump, wit):
+            sig = (v["key"], v["witness"].get("sig"), v["what"].split("::")[0][:60] if v["key"] is None else "")
+            seen[sig] = seen.get(sig, 0) + 1
+            if seen[sig] <= 2 and len(res["violations"]) < 80:
+                res["violations"].append(v)
+            bump("discrepancies")
     rng = random.Random(spec["seed"] * 31 + spec["shard"] + 5)
     for v in algebra_cases(rng, 60 if tier == "quick" else 250, res, bump):
         sig = (v["key"], v["what"][:50])
@@ -1518,8 +1527,8 @@ def replay(w):
                 return next(it)
 
         return algebra_cases(R(), 1, res, bump)
-    cx = make_program(w["seed"], w["shard"], w["index"], w.get("tier", "quick"))
-    wit = {k: w[k] for k in ("seed", "shard", "index", "tier", "kind") if k in w}
+    cx = make_program(w["seed"], w["shard"], w["index"], w.get("tier", "quick"), variant=w.get("variant", "main"))
+    wit = {k: w[k] for k in ("seed", "shard", "index", "tier", "kind", "variant") if k in w}
     viols = run_program(cx, res, bump, wit)
     if "case" in w:
         mine = [v for v in viols if v["witness"].get("case") == w["case"]]
